@@ -366,6 +366,30 @@ def rule_language(spec, idx, limit=200):
 def parse_tables(cfile):
     txt = open(cfile, encoding='latin1').read()
     tabs = {}
+    full = re.search(r'static const \w+ yy_nxt\[\]\[(\d+)\] =\s*\{(.*?)\}\s*;', txt, re.S)
+    if full:
+        # flex -Cf / -CF style: uncompressed two-dimensional transition table
+        width = int(full.group(1))
+        rows = [[int(x) for x in re.findall(r'-?\d+', r)] for r in re.findall(r'\{([^{}]*)\}', full.group(2))]
+        if not rows or any(len(r) != width for r in rows):
+            raise AnalysisBroken('lex.yy.c: malformed full transition table')
+        m = re.search(r'static const \w+ yy_accept\[(\d+)\] =\s*\{(.*?)\}\s*;', txt, re.S)
+        if not m:
+            raise AnalysisBroken('lex.yy.c: table yy_accept not found')
+        tabs['yy_accept'] = [int(x) for x in re.findall(r'-?\d+', m.group(2))]
+        tabs['mode'] = 'full'
+        tabs['nxt2'] = rows
+        tabs['width'] = width
+        nr = re.search(r'#define YY_NUM_RULES (\d+)', txt)
+        start = re.search(r'yyg->yy_start = (\d+);', txt)
+        tabs['num_rules'] = int(nr.group(1)) if nr else None
+        tabs['start'] = int(start.group(1)) if start else 1
+        tabs['jam'] = -1
+        if not re.search(r'yy_current_state = yy_nxt\[yy_current_state\]\[\s*YY_SC_TO_UI\(\*yy_cp\)\s*\]\) > 0', txt):
+            raise AnalysisBroken('lex.yy.c: full-table match loop has an unexpected form')
+        return tabs
+    tabs['mode'] = 'compressed'
+    tabs['width'] = 256
     for name in ('yy_accept', 'yy_ec', 'yy_meta', 'yy_base', 'yy_def', 'yy_nxt', 'yy_chk'):
         m = re.search(r'static const \w+ %s\[(\d+)\] =\s*\{(.*?)\}\s*;' % name, txt, re.S)
         if not m:
@@ -392,6 +416,9 @@ def parse_tables(cfile):
 
 
 def table_step(t, s, byte):
+    if t.get('mode') == 'full':
+        v = t['nxt2'][s][byte]
+        return v if v > 0 else t['jam']
     c = t['yy_ec'][byte]
     while t['yy_chk'][t['yy_base'][s] + c] != s:
         s = t['yy_def'][s]
@@ -415,6 +442,9 @@ def equivalent(dfa, t):
             return False, (path, 'spec accepts rule %s, committed tables accept rule %s' % (la1 or None, lb or None)), len(seen)
         for byte in range(1, 256):
             na = dfa.delta[a][byte]
+            if byte >= t.get('width', 256):
+                return False, (path + bytes([byte]), 'the committed transition table is only %d columns wide (7-bit scanner): byte 0x%02x indexes outside it, '
+                                                     'the specification %s' % (t['width'], byte, 'has no transition either' if na < 0 else 'continues')), len(seen)
             nb = table_step(t, b, byte)
             ja, jb = na < 0, nb == t['jam']
             if ja != jb:
